@@ -55,7 +55,7 @@ CLAIMED = {
         text="Lean theorems: for every service of the table, every code byte and tail, a 0x7F frame after k in-time 0x78 frames ends the request "
              "negative with exactly that code and name (k arbitrary, by induction); 0x78 never surfaces for any arrival list; callbacks once per 0x78 "
              "before the next wait; delivery through the decorator keeps the verdict. Tied by a call-level differential suite over all 80 entry points x all "
-             "256 codes on the real client. Call level for every service family (Props/C06Call.callWith_negative): whatever a client method would do with a positive reply, a negative-response frame of the request's service with any code but 0x78, after any number of in-time pending replies, makes the call raise the negative outcome with exactly that code - also inside a suppress block that waits for an NRC.",
+             "256 codes on the real client. Call level for every service family (Props/C06Call.callWith_negative): whatever a client method would do with a positive reply, a negative-response frame of the request's service with any code but 0x78, after any number of in-time pending replies, makes the call raise the negative outcome with exactly that code - also inside a suppress block that waits for an NRC. Props/CallUnify.callInner_is_callWith shows the 13 simple entry points to be instances of the same generic body, so the call-level theorems cover every client method.",
         design_ref='DESIGN.md §3 C06',
         technique='Lean 4 proof (induction on number of pending replies) + exhaustive-code differential suite over all entry points'),
     'C08': dict(
